@@ -546,6 +546,7 @@ func (p *Proxy) server(name string) *registeredServer {
 func (p *Proxy) Servers() []RegisteredServer {
 	p.muS.RLock()
 	defer p.muS.RUnlock()
+	verifhook.Point("list.servers.iter")
 	l := make([]RegisteredServer, 0, len(p.servers))
 	for _, rs := range p.servers {
 		verifhook.Point("list.servers.step")
